@@ -50,6 +50,16 @@ def r1_update_var_writes_private_state(ctx, rid):
         if not o[2] or o[2] in OWNED or o[2][0] in BOOKKEEPING_PREFIX:
             continue
         bad.append(e)
+    # a write that goes through `<local>.update_var(...)` of a node template inside update_var itself is the receiver clause's
+    # business (below): it is fine on a fresh copy and, for copy disciplines that re-use copies, decided by C17-R8; the effect summary
+    # cannot tell a licensed in-place write from an unlicensed one, so those events are held back until that verdict is in
+    def via_template_update(e):
+        st = e.stmt
+        return isinstance(st, ast.stmt) and any(isinstance(c, ast.Call) and isinstance(c.func, ast.Attribute) and c.func.attr == "update_var"
+                                                and not (isinstance(c.func.value, ast.Name) and c.func.value.id == f.self_name)
+                                                for c in ast.walk(st))
+    held = [e for e in bad if via_template_update(e)]
+    bad = [e for e in bad if not via_template_update(e)]
     if bad:
         seen = set()
         for e in bad:
@@ -64,7 +74,9 @@ def r1_update_var_writes_private_state(ctx, rid):
                {"mutates": sorted(p + "".join(path) for p, path in eff.mutates(f, None))}, label="update_var effect")
     # add_node_template (the helper that re-registers the updated template) must not write into a shared sub-circuit
     g = ctx.repo.get_func(FC, "CircuitTemplate.add_node_template")
-    deep = [e for e in eff.events_of(g, None) if e.origin[0] == "P" and e.origin[1] == g.self_name and len(e.origin[2]) > 1]
+    from .c14 import _is_derived_private_state
+    deep = [e for e in eff.events_of(g, None) if e.origin[0] == "P" and e.origin[1] == g.self_name and len(e.origin[2]) > 1
+            and not _is_derived_private_state(ctx, g.cls, e.origin[2][-1])]        # e.g. an ownership record emptied on hand-over
     if deep:
         for e in deep[:3]:
             ctx.violation(rid, g, e.stmt, f"add_node_template writes into `{fmt_origin(e.origin)}` (a sub-circuit template that may be shared): {e.how}")
@@ -75,6 +87,7 @@ def r1_update_var_writes_private_state(ctx, rid):
     target = ctx.repo.get_func(FG, "OperatorGraphTemplate.update_var")
     sites = ctx.cg.call_sites_of(target)
     n = 0
+    delegated = []
     for caller, call in sites:
         if not isinstance(call.func, ast.Attribute) or call.func.attr != "update_var":
             continue
@@ -86,10 +99,23 @@ def r1_update_var_writes_private_state(ctx, rid):
         n += 1
         if orig and all(o[0] == "F" for o in orig):
             ctx.ok(rid, caller, call, "node/edge template is updated on a fresh deep copy", {"receiver": sorted(fmt_origin(o) for o in orig)})
+        elif caller.qualname == "CircuitTemplate.update_var":
+            # the receiver is not (only) a copy made on this path: a copy discipline that re-uses copies made earlier (per-call registry
+            # tested by `id(x) in R`, copy-on-write with an ownership record) or no copy at all.  Whether the written object is held by
+            # this node alone is the statement of C17-R8 (licensed in-place writes; ownership dropped on hand-over; a write into a
+            # looked-up template without licence is its violation) - decided there, reported under this rule
+            delegated.append(call)
         else:
             ctx.violation(rid, caller, call, f"`{ast.unparse(call.func.value)}.update_var(...)` writes a value into a node/edge template whose "
                                              f"origin is {sorted(fmt_origin(o) for o in orig)}: templates are shared between nodes, so the "
                                              f"override would reach every node using it", {"receiver": sorted(fmt_origin(o) for o in orig)})
+    n_viol = sum(1 for o in ctx.obs if o.status == "violation")
+    if delegated or held:
+        from .c17 import r8_override_written_into_unshared_copy
+        r8_override_written_into_unshared_copy(ctx, rid)
+    if held and sum(1 for o in ctx.obs if o.status == "violation") == n_viol:
+        ctx.ok(rid, f, held[0].stmt, "in-place writes of re-used node templates are licensed (C17-R8: registry test / ownership record dropped "
+                                     "on hand-over)", {"statements": sorted({norm(e.stmt)[:80] for e in held})}, label="licensed in-place writes")
     if n < 1:
         raise AnalysisError(f"{rid}: no resolved call site of OperatorGraphTemplate.update_var found")
 
@@ -182,6 +208,7 @@ def r3_array_values_by_position(ctx, rid):
                 sel, plain, neg = plain, sel, True
             if not (isinstance(sel, ast.Subscript) and ast.unparse(normalise(ctx, f, sel.value)) == ast.unparse(normalise(ctx, f, plain))):
                 continue
+            test = normalise(ctx, f, test)          # the size test may be computed once before the loop (`per_node = hasattr(..) and ..`)
             if not any(isinstance(c, ast.Call) and call_name(c) == "hasattr" for c in ast.walk(test)):
                 continue
             n += 1
@@ -368,10 +395,19 @@ def r5_cached_defaults_come_from_the_template(ctx, rid):
     r9_explicit_value_wins_over_cached_default(ctx, rid)
 
 
+def r6_edge_records_carry_their_index(ctx, rid):
+    """An edge override addressed by (source, target, idx) reaches exactly that edge: wherever an edge record handed to update_var was
+    resolved with an index that can be non-zero, the record carries that index (adapt_circuit's producer records and the update_var
+    consumer; the C17-R3 analysis, reused)."""
+    from .c17 import edge_records_carry_their_index
+    edge_records_carry_their_index(ctx, rid)
+
+
 RULES = [
     ("C07-R1", r1_update_var_writes_private_state, 3),
     ("C07-R2", r2_apply_does_not_write_template, 9),
     ("C07-R3", r3_array_values_by_position, 2),
     ("C07-R4", r4_edge_update_replaces_exactly_one_edge, 1),
     ("C07-R5", r5_cached_defaults_come_from_the_template, 2),
+    ("C07-R6", r6_edge_records_carry_their_index, 1),
 ]
